@@ -195,8 +195,24 @@ func tplStalePolka(s *sim, ha types.Height) (hit bool) {
 	if !c.isQuorum(ha, s.setPower(ha, nonseers)+bp) {
 		return false
 	}
+	// deep variant: every non-seer sees the round-1 polka and locks X@1, one of
+	// them (w) additionally sees the quorum of precommits and DECIDES X; in round
+	// 2 byzantine validators back (Y, vr=0) with prevotes and precommits. Any
+	// validator that wrongly gives up its lock on X@1 for the older polka lets Y
+	// be decided as well (end-to-end disagreement).
+	deep := len(rest) >= 1 && s.rng.IntN(2) == 0
+	lockers, others := []int{victim}, append([]int{seer}, rest...)
+	w := -1
+	if deep {
+		lockers, others = nonseers, []int{seer}
+		w = rest[0]
+	}
+	isLocker := map[int]bool{}
+	for _, i := range lockers {
+		isLocker[i] = true
+	}
 	allow = map[int]uint32{}
-	for _, to := range append([]int{seer}, rest...) {
+	for _, to := range others {
 		own := c.pw(ha, to)
 		if to == seer {
 			own = 0
@@ -210,31 +226,81 @@ func tplStalePolka(s *sim, ha types.Height) (hit bool) {
 		}
 		allow[to] = mask | 1<<uint(seer)
 	}
-	s.byzAll(kPrevote, ha, 1, X, victim)
-	s.byzAll(kPrevote, ha, 1, 0, append([]int{seer}, rest...)...)
+	s.byzAll(kPrevote, ha, 1, X, lockers...)
+	s.byzAll(kPrevote, ha, 1, 0, others...)
 	s.pump(func(to int, m *msg) bool {
-		return isKind(m, kPrevote, ha, 1) && (to == victim || allow[to]&(1<<uint(m.from)) != 0)
+		return isKind(m, kPrevote, ha, 1) && (isLocker[to] || allow[to]&(1<<uint(m.from)) != 0)
 	})
-	if v, ok := s.ownPC(victim, ha, 1); !ok || v != X {
+	for _, i := range lockers {
+		if v, ok := s.ownPC(i, ha, 1); !ok || v != X {
+			return false
+		}
+	}
+	s.fireAll(others, ha, types.StepPropose, 1) // seer may still wait for a proposal
+	s.fireAll(others, ha, types.StepPrevote, 1)
+	if deep {
+		allow = map[int]uint32{}
+		for _, to := range C {
+			if to == w {
+				continue
+			}
+			own := c.pw(ha, to)
+			if to == seer {
+				own = 0
+			}
+			mask, p := s.belowQuorum(ha, to, nonseers, own)
+			if to == seer {
+				p += c.pw(ha, to)
+			}
+			if !c.isQuorum(ha, p+bp) {
+				return false
+			}
+			allow[to] = mask | 1<<uint(seer)
+		}
+		s.byzAll(kPrecommit, ha, 1, X, w)
+		for _, to := range C {
+			if to != w {
+				s.byzAll(kPrecommit, ha, 1, 0, to)
+			}
+		}
+		s.pump(func(to int, m *msg) bool {
+			return isKind(m, kPrecommit, ha, 1) && (to == w || allow[to]&(1<<uint(m.from)) != 0)
+		})
+		if v, ok := s.decided[ha]; !ok || v != X {
+			return false
+		}
+	} else {
+		s.byzAll(kPrecommit, ha, 1, 0, C...)
+		s.pump(func(to int, m *msg) bool { return isKind(m, kPrecommit, ha, 1) })
+	}
+	var left []int
+	for _, i := range C {
+		if i != w {
+			left = append(left, i)
+		}
+	}
+	s.fireAll(left, ha, types.StepPrecommit, 1)
+	if !s.allInRound(left, ha, 2) {
 		return false
 	}
-	s.fireAll(append([]int{seer}, rest...), ha, types.StepPropose, 1) // seer may still wait for a proposal
-	s.fireAll(append([]int{seer}, rest...), ha, types.StepPrevote, 1)
-	s.byzAll(kPrecommit, ha, 1, 0, C...)
-	s.pump(func(to int, m *msg) bool { return isKind(m, kPrecommit, ha, 1) })
-	s.fireAll(C, ha, types.StepPrecommit, 1)
-	if !s.allInRound(C, ha, 2) {
-		return false
-	}
-	// ---- the victim learns the round-0 polka
-	s.pump(func(to int, m *msg) bool { return isKind(m, kPrevote, ha, 0) && to == victim })
+	// ---- the locked validators learn the round-0 polka
+	s.pump(func(to int, m *msg) bool { return isKind(m, kPrevote, ha, 0) && isLocker[to] && to != w })
 	// ---- round 2
 	if byzR2 {
-		s.byzSend(msg{kind: kProposal, from: int8(b), h: ha, r: 2, val: Y, vr: 0}, C...)
+		s.byzSend(msg{kind: kProposal, from: int8(b), h: ha, r: 2, val: Y, vr: 0}, left...)
 	} else {
 		s.pump(func(to int, m *msg) bool { return isKind(m, kProposal, ha, 2) })
 	}
 	_, hit = s.ownPV(victim, ha, 2)
+	if deep {
+		s.byzAll(kPrevote, ha, 2, Y, left...)
+		s.pump(func(to int, m *msg) bool { return isKind(m, kPrevote, ha, 2) })
+		s.byzAll(kPrecommit, ha, 2, Y, left...)
+		s.pump(func(to int, m *msg) bool { return isKind(m, kPrecommit, ha, 2) })
+		if hit {
+			s.st.deepHits++
+		}
+	}
 	return hit
 }
 
